@@ -15,7 +15,7 @@ from fractions import Fraction
 from engine import term as T, agg, build, vg, poly as P, polycheck as PC
 from engine.agg import ELEM, TU
 from engine.report import HOLDS, VIOLATED, UNDECIDED
-from .common import Analysed, fn_where
+from .common import Analysed, fn_where, narrowing
 from .c05 import det, matmul, sum_p, ONE
 
 HDR = agg.HEADER + '#include <ImathFrame.h>\n'
@@ -268,6 +268,7 @@ def main(rep, ws, tier):
                     if m['rows'] == 'nextI': check_range(rep, oid, S, t, where)
             except (P.NotPoly, PC.Undecided, vg.Unsupported, OverflowError) as e:
                 rep.ob(oid, rule, UNDECIDED, str(e), where)
+    narrowing(rep, ws, [gen('d')], 'R09.prec')
     rep.floor('transform builder instances', sum(1 for o in rep.obs if o['rule'] in ('R09.set', 'R09.pre')), 28 * len(types))
     rep.assumptions += ['exact real arithmetic (D-poly); sin/cos/sqrt are atoms with sin^2+cos^2=1 and sqrt(x)^2=x', 'generic path of length(): squared length not subnormal (C08 decides length itself)']
     rep.undecided_clauses += ['behaviour for nearly parallel directions (numeric)', 'orthonormality "to rounding"']
